@@ -27,9 +27,10 @@
    attribute is allowed`) and on event lists that are no visitor protocol at all (a second
    visit_deprecated_and_synthetic_attribute, a record component index out of sequence, a declined
    member — the tree builder never declines).  With [strict = true] it additionally refuses the
-   three situations in which a tree cannot tell what the reader said (see Theory11: they are the
+   two situations in which a tree cannot tell what the reader said (see Theory11: they are the
    known class of the replay theorem):  an annotations attribute without annotations, a second
-   attribute extending / overwriting an already filled field, a LocalVariable(Type)Table without rows. *)
+   attribute extending / overwriting an already filled field.  (A LocalVariable(Type)Table without rows
+   was the third until the reader and Code::accept agreed on one rule for it: [t_whole] / SLocals.) *)
 From FB Require Export C17.Model C17.Struct.
 
 Fixpoint assoc {A} (k : str) (l : list (str * A)) : option A :=
@@ -134,9 +135,6 @@ Definition row_of (ac : accept_ctx) (name : str) : option brow :=
 Definition stores_into (ct : ctx_table) (slot name : str) : bool :=
   match act_full ct name with Some (AParse (DStore s _)) => str_eqb s slot | _ => false end.
 
-Definition replayed_by_locals (ac : accept_ctx) (f : str) : bool :=
-  existsb (fun s => match s with SLocals _ f' _ _ => str_eqb f f' | _ => false end) (ac_steps ac).
-
 Record nbuild (K : Type) := mkNB {
   nb_code : list str -> list ev -> res K;      (* frames sources, events of the Code attribute *)
   nb_rc : list ev -> res K;
@@ -172,7 +170,7 @@ Definition build_step {K} (strict : bool) (ct : ctx_table) (ac : accept_ctx) (nb
         | None => Err
         | Some row =>
           if negb (forallb (fun x => stores_into ct slot (fst x)) srcs) then Err
-          else if strict && (is_nil srcs || existsb (fun x => is_nil (snd x)) srcs && replayed_by_locals ac (b_field row)) then Err
+          else if strict && is_nil srcs then Err                (* no reader hands over a table that no attribute filled *)
           else match b_mode row, assoc (b_field row) (it_slots st) with
                | MOnce, None => Ok (set_slot (b_field row) (VRows (flat_rows srcs)) st)
                | _, _ => Err
@@ -305,13 +303,14 @@ Definition run_step {K} (ct : ctx_table) (ac : accept_ctx) (AT : accept_tables) 
       else []
   | SUnknown flag _ _ =>
       if interested m flag then map (fun p => EAttr (fst p) true (snd p)) (it_unknown st) else []
-  | SLocals flags f V kinds =>
+  | SLocals flags f V kinds whole =>
       if existsb (interested m) flags then
         match assoc f (it_slots st), rassoc V (ac_deferred ac) with
         | Some (VRows l), Some slot =>
             (* `.filter(|lv| (lv.k1.is_some() && interests.g1) || (lv.k2.is_some() && interests.g2))`: row by row, order kept *)
             let kept := filter (fun r => match kind_flag AT kinds (fst r) with Some g => interested m g | None => false end) l in
-            if is_nil l || negb (is_nil kept) then [EDeferred slot (one_each kept)] else []
+            (* `if !t.is_empty() || (interests.w1 && interests.w2)` *)
+            if negb (is_nil kept) || forallb (interested m) whole then [EDeferred slot (one_each kept)] else []
         | _, _ => []
         end
       else []
